@@ -19,7 +19,7 @@ import networkx as nx
 import common
 import lit
 import molgen
-from props.c03 import C03, RecGraph, tables
+from props.c03 import C03, RecGraph, tables, make_resolver
 import copy
 
 
@@ -108,11 +108,16 @@ class C01(C03):
         while len(out) < n:
             c = molgen.cut_case(ctx.rng, nmax=ctx.rng.choice([4, 7, 9, 12]), kmax=ctx.rng.choice([2, 3, 4, 5]))
             if c is not None:
+                # the bonding step and the graph-level clauses are observed through one of the three constructors
+                c['ctor'] = ctx.rng.choice(['string', 'string', 'graph', 'dicts'])
                 out.append(c)
         return out
 
     def describe(self, case):
-        return {k: case[k] for k in ('s', 'single', 'mol')}
+        d = {k: case[k] for k in ('s', 'single', 'mol')}
+        if case.get('ctor', 'string') != 'string':
+            d['ctor'] = case['ctor']
+        return d
 
     def run_impl(self, case):
         from cgsmiles.resolve import MoleculeResolver
@@ -123,11 +128,19 @@ class C01(C03):
         res = {'bonding': out}
         exp = molgen.expected_graph(case['mol'])
         for key in ('s', 'single'):
-            try:
-                _, g = MoleculeResolver.from_string(case[key]).resolve_all()
-                res[key] = bool(molgen.same_molecule(molgen.heavy_graph_of_result(g), exp))
-            except Exception as exc:
-                res[key] = 'EXC %s: %s' % (type(exc).__name__, str(exc)[:80])
+            # the cut string goes through all three constructors (the property names from_graph and from_string;
+            # the base graph is always the one read_cgsmiles reads, so they must behave alike); the first
+            # constructor that does not give the molecule back decides the verdict
+            for ctor in (('string', 'graph', 'dicts') if key == 's' else ('string',)):
+                try:
+                    _, g = make_resolver({'s': case[key], 'aa': True, 'legacy': True, 'ctor': ctor}).resolve_all()
+                    res[key] = bool(molgen.same_molecule(molgen.heavy_graph_of_result(g), exp))
+                except Exception as exc:
+                    res[key] = 'EXC %s: %s' % (type(exc).__name__, str(exc)[:80])
+                if res[key] is not True:
+                    if ctor != 'string':
+                        res['ctor_failed'] = ctor
+                    break
         # cut pairs per base edge in the coordinates of the bonding step (for dedicated_b / cut_fail)
         res['cuts'] = self._cut_pairs(case)
         if case.get('glevel'):
@@ -139,7 +152,7 @@ class C01(C03):
         bonding step (None when it raised / was not reached); the templates' hcount per atom of the cut"""
         from cgsmiles.resolve import MoleculeResolver
         try:
-            resolver = MoleculeResolver.from_string(case['s'])
+            resolver = make_resolver({'s': case['s'], 'aa': True, 'legacy': True, 'ctor': case.get('ctor', 'string')})
         except Exception:
             return None
         fd = resolver.fragment_dicts[0]
